@@ -343,12 +343,12 @@ def model_parts(ctx, rng, dec_meta, failures, bump, samples):
     impl = _par([o[1] for o in objs])
     terms = []
     for d, op, t in objs:
-        terms += [f"KTree true ({t})", f"KTree false ({t})", f"KRt true ({t})", f"KRt false ({t})", f"KSkips ({t})"]
+        terms += [f"KTree true ({t})", f"KTree false ({t})", f"KRt true ({t})", f"KRt false ({t})", f"KSkips ({t})", f"KPos ({t})"]
     model = C.run_model("C19", HEADER, terms, shard_size=200, tag="tree")
     for k, ((d, op, t), r) in enumerate(zip(objs, impl)):
         if r.get("r") != "ok":
             raise C.Infra("d_tree: " + json.dumps(r)[:300])
-        m_hr, m_bin, rt_hr, rt_bin, skips = [x.strip() for x in model[5 * k: 5 * k + 5]]
+        m_hr, m_bin, rt_hr, rt_bin, skips, pos = [x.strip() for x in model[6 * k: 6 * k + 6]]
         n_eval += 1
         bump("M:tree:" + d.split()[0])
         for which, mi, ii in (("human-readable", m_hr, r["hr"]), ("binary", m_bin, r["bin"])):
@@ -366,9 +366,16 @@ def model_parts(ctx, rng, dec_meta, failures, bump, samples):
                 failures.append({"class": None, "witness": False,
                                  "text": f"correspondence broken: BARE round trip of {d} is {r['bare']} but the model's skipped-field predicate says {skips}",
                                  "case": {"op": op, "coq_term": t}})
+            # ... and the model's positional reader itself: it gives the object back exactly when the implementation's does
+            if pos != "na":
+                bump(f"M:pos-reader:{d.split()[0]}:model={pos}:impl={r['bare']}")
+                if (pos == "ok") != bare_ok:
+                    failures.append({"class": None, "witness": False,
+                                     "text": f"correspondence broken: BARE round trip of {d} is {r['bare']} but the model's positional reader says {pos}",
+                                     "case": {"op": op, "coq_term": t}})
         elif not bare_ok:
             failures.append({"class": None, "witness": True, "text": f"BARE round trip of {d} fails: {r['bare']}", "case": {"op": op}})
-    samples.append({"part": "tree", "object": objs[-1][0], "impl_hr": impl[-1]["hr"][:160], "model_hr": model[-5].strip()[:160]})
+    samples.append({"part": "tree", "object": objs[-1][0], "impl_hr": impl[-1]["hr"][:160], "model_hr": model[-6].strip()[:160]})
 
     # ---- hand-written codecs against the layout model: the honest encodings and mutations of them
     cases = []
